@@ -18,6 +18,13 @@
 (*     R * RM / RD, the records carry `rm`.  Nothing in the model depends on the         *)
 (*     magnitude of the rewards - in particular an unavailable action is never chosen,   *)
 (*     however bad the available ones are (RuleAvailable, Support within Avail).         *)
+(*     MIXED magnitudes (rewards ~1 at some states, ~1e9 at others) do not fit 32-bit    *)
+(*     arithmetic and are modelled structurally: a per-state multiplier SM[s] (field SM, *)
+(*     default all 1) with the instance DECOUPLED - no transition between non-absorbing  *)
+(*     states of different multipliers (Decoupled, part of the instance filter).  The    *)
+(*     MDP is then a union of sub-MDPs that only share value-0 absorbing states, the     *)
+(*     value / gain / relative value of a state is linear in ITS component's rewards, so *)
+(*     the real quantity at s is the model's times SM[s] * RM / RD (records carry `sm`). *)
 (* (O) oracle: discounted -> MDP!OptimalValue; undiscounted -> Chain!GainOracle (closed  *)
 (*     classes, tree-theorem stationary weights, absorption probabilities, max over the  *)
 (*     deterministic policies).                                                          *)
@@ -52,6 +59,11 @@ AbsM(m)  == AbsAll(m)
 Unbound  == <<>>                      \* value of a local the code has not assigned yet
 Unit(m)  == IF "RD" \in DOMAIN m THEN m.RD ELSE 1     \* reward denominator: all values are in units of 1/RD
 Mult(m)  == IF "RM" \in DOMAIN m THEN m.RM ELSE 1     \* reward multiplier: ... times RM
+Mults(m) == IF "SM" \in DOMAIN m THEN [s \in St(m) |-> m.SM[s]] ELSE [s \in St(m) |-> 1]   \* ... times SM[s] at state s
+\* states of different magnitude never feed into each other (ghost rows of absorbing states included)
+Decoupled(m) ==
+  \A s \in St(m) : \A a \in Avail(m, s) : \A t \in St(m) :
+     (m.P[s][a][t] > 0 /\ t \notin ExplAbs(m)) => Mults(m)[s] = Mults(m)[t]
 
 \* ------------------------------------------------------------------ oracle bundle
 Oracle(m) ==
@@ -97,16 +109,17 @@ Choices(m, q, p, s) ==
 ImproveSet(m, q, p) ==
   LET ch == TLCEval([s \in St(m) |-> Choices(m, q, p, s)]) IN
   {n \in [St(m) -> Ac(m)] : \A s \in St(m) : n[s] \in ch[s]}
-\* support of the policy assembled by plan_on (msdm c58857c): the maximisers of action_gain, and AMONG THEM the
-\* maximisers of action_value (np.where(gain_max, action_bias, -inf)), so no row can come out empty; the code's tie
-\* tolerance is 1e-10 times the largest finite table entry (round-off scales with the tables) - in exact
-\* arithmetic: equality.  At a state where the rule is a maximiser of both tables (every state of a run that
-\* stopped by its own test) this is the same set as "gain maximisers AND overall value maximisers".
-Support(m, gqq, bqq) ==
+\* support of the policy assembled by plan_on (msdm 6cc37cd): the actions that maximise action_gain AND
+\* action_value, each tie tested with a tolerance of 1e-10 times the magnitude of the ROW's maximum (round-off
+\* scales with the row; a tolerance relative to the largest entry of the whole table - c58857c - tied really
+\* different actions of a small-valued state next to a state worth 1e9); a state where no action maximises both
+\* tables keeps the action the iteration stopped with (the rule p), so no row is empty.  In exact arithmetic the
+\* ties are equalities, and at every state of a run that stopped by its own test the rule's action is in the set.
+Support(m, gqq, bqq, p) ==
   LET ab == AbsM(m) IN
   [s \in St(m) |->
-     LET gm == {a \in Avail(m, s) : gqq[s][a] = MaxOver(m, gqq, s)} IN
-     {a \in gm : s \in ab \/ bqq[s][a] = RMaxSet({bqq[s][b] : b \in gm})}]
+     LET both == {a \in Avail(m, s) : gqq[s][a] = MaxOver(m, gqq, s) /\ (s \in ab \/ bqq[s][a] = MaxOver(m, bqq, s))}
+     IN IF both = {} THEN {p[s]} ELSE both]
 
 \* ------------------------------------------------------------------ machine
 Init ==
@@ -203,14 +216,14 @@ JudgeRecord(m) ==
 \* ------------------------------------------------------------------ emission
 Emit ==
   /\ phase = "inst" =>
-       PrintT(ToJson([iid |-> iid, kind |-> "oracle", rd |-> Unit(M), rm |-> Mult(M), disc |-> opt.disc, v |-> opt.v, init |-> opt.init,
+       PrintT(ToJson([iid |-> iid, kind |-> "oracle", rd |-> Unit(M), rm |-> Mult(M), sm |-> Mults(M), disc |-> opt.disc, v |-> opt.v, init |-> opt.init,
                       nvals |-> opt.nvals, maxcls |-> opt.maxcls, mincls |-> opt.mincls,
                       absall |-> AbsM(M)]))
   /\ Terminal =>
        PrintT(ToJson([iid |-> iid, kind |-> "run", pol0 |-> hist[1].pol, phase |-> phase, its |-> k,
                       conv |-> Converged, pol |-> pol, g |-> g, h |-> h, gq |-> gq,
                       bqdef |-> bq # Unbound, bq |-> bq,
-                      sup |-> IF bq = Unbound THEN <<>> ELSE Support(M, gq, bq),
+                      sup |-> IF bq = Unbound THEN <<>> ELSE Support(M, gq, bq, pol),
                       hist |-> hist]))
   /\ phase = "judge" => PrintT(ToJson(JudgeRecord(M)))
 
@@ -223,6 +236,7 @@ WellFormed16(m) ==
   /\ \A s \in St(m), a \in Ac(m), t \in St(m) : m.P[s][a][t] >= 0
   /\ SumTo([s \in St(m) |-> m.p0[s]], m.N) = m.ID
   /\ m.GN >= 0 /\ m.GN <= m.GD /\ m.GD > 0
+  /\ Decoupled(m)
 InstancesWellFormed == WellFormed16(M) /\ DeadEnd(M) = {}
 \* (P1) the oracle is attained by one deterministic policy at all states simultaneously, absorbing
 \*      states are worth 0, and (undiscounted) the optimal gain satisfies the first multichain
@@ -253,7 +267,7 @@ StoppedOptimal ==
 \* (P5) ... and the policy plan_on assembles from the maximisers attains the optimum when evaluated exactly
 StoppedPolicyAttains ==
   phase = "done" =>
-     LET w == UniformOn(M, Support(M, gq, bq)) ab == ExplAbs(M) IN
+     LET w == UniformOn(M, Support(M, gq, bq, pol)) ab == ExplAbs(M) IN
      /\ WeightsOK(M, w, ab)
      /\ IF opt.disc THEN DiscValue(M, w, ab) = opt.v ELSE PolicyGain(M, w, ab) = opt.v
 \* (P6) a run that does not repeat a rule needs few iterations (never cut by a generous cap), and
